@@ -2875,20 +2875,10 @@ func (te *TemplateEngine) processImagePlaceholdersInParagraph(para *Paragraph, d
 	// 检查是否包含图片占位符（支持两种格式）
 	// 1. 原始模板格式：{{#image imageName}}
 	// 2. 渲染后格式：[IMAGE:imageName]
-	originalImagePattern := regexp.MustCompile(`\{\{#image\s+(\w+)\}\}`)
-	renderedImagePattern := regexp.MustCompile(`\[IMAGE:(\w+)\]`)
-
-	originalMatches := originalImagePattern.FindAllStringSubmatch(fullText, -1)
-	renderedMatches := renderedImagePattern.FindAllStringSubmatch(fullText, -1)
-
-	// 合并两种格式的匹配结果
-	allMatches := make([][2]string, 0)
-	for _, match := range originalMatches {
-		allMatches = append(allMatches, [2]string{match[0], match[1]})
-	}
-	for _, match := range renderedMatches {
-		allMatches = append(allMatches, [2]string{match[0], match[1]})
-	}
+	// 两种格式用同一个正则表达式按文本顺序查找：分别查找再拼接会打乱占位符的先后顺序，
+	// 之后按顺序定位占位符会失败（位置为 -1），导致图片错位、文本丢失甚至切片越界
+	imagePattern := regexp.MustCompile(`\{\{#image\s+(\w+)\}\}|\[IMAGE:(\w+)\]`)
+	allMatches := imagePattern.FindAllStringSubmatchIndex(fullText, -1)
 
 	if len(allMatches) == 0 {
 		// 没有图片占位符，返回原段落
@@ -2900,9 +2890,16 @@ func (te *TemplateEngine) processImagePlaceholdersInParagraph(para *Paragraph, d
 
 	// 处理每个图片占位符
 	for _, match := range allMatches {
-		imageName := match[1]
-		matchStart := strings.Index(fullText[lastEnd:], match[0]) + lastEnd
-		matchEnd := matchStart + len(match[0])
+		matchStart := match[0]
+		matchEnd := match[1]
+
+		// 图片名称在第一个或第二个分组中（取决于占位符格式）
+		imageName := ""
+		if match[2] >= 0 {
+			imageName = fullText[match[2]:match[3]]
+		} else if match[4] >= 0 {
+			imageName = fullText[match[4]:match[5]]
+		}
 
 		// 添加图片占位符前的文本（如果有）
 		if matchStart > lastEnd {
